@@ -221,6 +221,18 @@ func cmdC03(r *RNG, n int, e *Emitter, args []string) {
 				return notOK("ClipperD.ExecuteOC", cl.ExecuteOC(ct, fr, &a, &b))
 			}},
 			{"InflatePaths64", false, func() string { clip.InflatePaths64(s, delta, jt, et); return "" }},
+			{"InflatePaths64 with options", false, func() string {
+				// option values of every finite kind: tolerances far above |delta| (the arc-step computation leaves the domain of
+				// acos), zero and negative values, tiny and huge miter limits
+				arc := []float64{0, 0.01, 0.25, 5, 40, 1e3, 1e9, -1}[r.Intn(8)]
+				mit := []float64{0, 0.5, 1, 2, 100, -3}[r.Intn(6)]
+				clip.InflatePaths64(s, delta, jt, et, clip.WithArcTolerance(arc), clip.WithMitterLimit(mit))
+				co := clip.NewClipperOffset(mit, arc, r.Bool(), r.Bool())
+				co.AddPaths(s, jt, et)
+				var sol clip.Paths64
+				co.Execute64(delta, &sol)
+				return ""
+			}},
 			{"InflatePathsD", true, func() string { clip.InflatePathsD(sD, delta, jt, et, clip.WithPrecision(prec)); return "" }},
 			{"ClipperOffset", false, func() string {
 				co := clip.NewClipperOffset(2, 0.25, r.Bool(), r.Bool())
